@@ -97,7 +97,16 @@ def _cached_parse_string(text):
                 _parse_cache.clear()
             _parse_cache[text] = ('exc', None)
             raise
-        blob = pickle.dumps(tree)
+        try:
+            blob = pickle.dumps(tree)
+        except Exception:
+            # a tree that cannot be copied is not cached: every compilation
+            # of this text parses afresh (the harness must not turn a
+            # property of the tree into a failure of its own)
+            if len(_parse_cache) >= _PARSE_CACHE_MAX:
+                _parse_cache.clear()
+            _parse_cache[text] = ('exc', None)
+            return tree
         if len(_parse_cache) >= _PARSE_CACHE_MAX:
             _parse_cache.clear()
         _parse_cache[text] = ('ok', blob)
